@@ -1,7 +1,7 @@
 """C09 - splice replaces exactly the requested range and nothing else."""
 import contracts.formatstring as F
 from pyvc.verify import verify
-from bounded.common import Suite, mk, layouts, FmtStr, Chunk, fmtstr
+from bounded.common import Suite, mk, layouts, FmtStr, Chunk, fmtstr, describe
 
 LEVEL = "proof"
 CONTRACTS = [F.divides, F.splice, F.append]
@@ -80,6 +80,38 @@ def characters(check, tier):
     s.done()
 
 
+def str_operand_types(check, tier):
+    """"then the characters of new": a plain-str `new` that is an instance of a str SUBCLASS (own __str__ / __format__, a str-mixin Enum
+    member) contributes its characters, exactly like the equal plain str"""
+    from props.C06 import str_lookalikes
+    from bounded.common import cells
+    s = Suite(check, "C09.str_operand_types", "splice / append with `new` an instance of a str subclass (plain, with an own __str__, a str-mixin Enum member; "
+              "also empty) at every start / end of 4 layouts: the same characters and formatting as with the equal plain str", bound="4 texts x 3 classes x 4 layouts")
+    for text in ("red", "x", "a b", ""):
+        for kind, op in str_lookalikes(text):
+            for f in (mk(()), mk((2,)), mk((1, 2)), mk((2, 0, 1))):
+                L = len(f)
+                for start in range(0, L + 1):
+                    for end in [None] + list(range(start, L + 1)):
+                        s.case((text, kind, describe(f), start, end))
+                        want = f.splice(text, start, end)
+                        try:
+                            got = f.splice(op, start, end)
+                            d = "" if cells(got) == cells(want) and len(got) == len(want) else f"gives {got.s!r}, with the equal plain str {want.s!r}"
+                        except Exception as e:      # noqa: BLE001
+                            d = f"raised {type(e).__name__}: {e}"
+                        if d:
+                            s.fail("C09.str_operand", dict(text=text, operand=kind, f=describe(f), start=start, end=end), d)
+                s.case((text, kind, describe(f), "append"))
+                try:
+                    d = "" if cells(f.append(op)) == cells(f.append(text)) else f"append gives {f.append(op).s!r}, with the equal plain str {f.append(text).s!r}"
+                except Exception as e:      # noqa: BLE001
+                    d = f"append raised {type(e).__name__}: {e}"
+                if d:
+                    s.fail("C09.str_operand", dict(text=text, operand=kind, f=describe(f), form="append"), d)
+    s.done()
+
+
 def derived(check, tier, seed):
     from bounded.derived import derived_values
     n = 5000 if tier == "thorough" else 600
@@ -121,4 +153,5 @@ def run(check, tier, seed):
         verify(c, tier, check)
     bounded(check, tier)
     characters(check, tier)
+    str_operand_types(check, tier)
     derived(check, tier, seed)
